@@ -73,6 +73,7 @@ def fixed_families(rng):
                                           demographics=[dict(type='deaths', death_rate=40)], dur=12.0)))
     fam.append(('random-dur-dist-monthly', base(dt=1 / 12, networks=[dict(type='random', n_contacts=2, dur=('const', 0.2)),
                                                                       dict(type='erdos', p=0.04, dur=('lognorm', 0.3, 0.1))], dur=0.75)))
+    fam.append(('random-dur-timepar', base(dt=0.5, networks=[dict(type='random', n_contacts=2, dur=('years', 1.5)), dict(type='erdos', p=0.05, dur=('years', 1.0))], dur=5.0)))
     fam.append(('maternal-deaths', base(n_agents=80, dt=0.25, networks=[dict(type='prenatal'), dict(type='postnatal'), dict(type='random', n_contacts=2, dur=0.6)],
                                         demographics=[dict(type='pregnancy', fertility_rate=500, p_maternal_death=0.2, p_neonatal_death=0.3, burnin=True, dur_postpartum=0.6),
                                                       dict(type='deaths', death_rate=120)], dur=3.0)))
@@ -156,6 +157,7 @@ def dur_par(d):
     """ the `dur` parameter of a RandomNet / ErdosRenyiNet from its JSON form: a number, ('lognorm', mean, std) or ('const', v) """
     import starsim as ss
     if isinstance(d, (tuple, list)):
+        if d[0] == 'years': return ss.years(d[1])   # a time parameter: D years, whatever the timestep
         return ss.constant(d[1]) if d[0] == 'const' else ss.lognorm_ex(mean=d[1], std=d[2])
     return d
 
@@ -168,7 +170,7 @@ def stated_of(ncfg):
     if t in ('random', 'erdos'):
         d = ncfg['dur']
         if isinstance(d, (tuple, list)):
-            return ('plain', float(d[1])) if d[0] == 'const' else ('drawn', None)
+            return ('plain', float(d[1])) if d[0] in ('const', 'years') else ('drawn', None)   # networks run in years here
         return ('plain', float(d))
     if t in ('mf', 'msm', 'embedding'):
         return ('drawn', None)
@@ -234,6 +236,13 @@ def build_sim(cfg, probe=None):
 
 # ---------------------------------------------------------------------------
 # recording
+
+def net_dt_of(net):
+    try:
+        return float(net.t.dt)
+    except Exception:
+        return None
+
 
 def table_of(net):
     return {k: np.array(v).copy() for k, v in net.edges.items()}
@@ -339,7 +348,8 @@ class Recorder:
                     new = sc.mergedicts(edges, kw)
                     rec.events.append(dict(op='append', net=self.name, cls=type(self).__name__, pre=pre, people=ps, netstate=ns,
                                            new={k: np.array(v).copy() for k, v in new.items()}, post=table_of(self), err=err,
-                                           ti=getattr(getattr(sim, 't', None), 'ti', None) if sim is not None else None))
+                                           ti=getattr(getattr(sim, 't', None), 'ti', None) if sim is not None else None,
+                                           dt=net_dt_of(self)))
             return f
 
         def w_end(kind):
@@ -465,6 +475,8 @@ def attach_stated(sim, cfg, events):
             n = len(ev['new']['p1'])
             ev['stated'] = how
             if how == 'plain':
+                ncfg = cfg['networks'][list(stated).index(ev['net'])]
+                ev['stated_timepar'] = isinstance(ncfg.get('dur'), (tuple, list)) and ncfg['dur'][0] == 'years'
                 ev['stated_val'] = val
                 ev['stated_col'] = np.full(n, val, dtype=float)
             else:
@@ -640,7 +652,9 @@ def addstated_line(ev, kind, new, variant_of):
         the durations the CONFIGURATION states (number, or the recorded draws of the duration distribution); the model must
         produce the observed post-table, dur column included """
     variant = variant_of(kind)
-    if ev['stated'] == 'plain':
+    if ev['stated'] == 'plain' and ev.get('stated_timepar'):
+        dur = ['durpar=timepar', 'dval=' + frac(ev['stated_val']), 'dt=' + frac(ev['dt'])]   # value of a time parameter = D / dt timesteps
+    elif ev['stated'] == 'plain':
         dur = ['durpar=plain', 'dval=' + frac(ev['stated_val'])]
     else:
         dur = ['durpar=drawn', 'draws=' + (lst(ev['stated_col'], frac) if ev['stated_col'] is not None else '-')]
@@ -815,7 +829,10 @@ def oracle_stated(events):
     for ev in events:
         cls = ev.get('cls')
         if ev['op'] == 'append' and 'stated' in ev and cls not in seen:
-            got = np.asarray(ev['new'].get('dur', []), dtype=float).ravel()
+            # what the table holds for the new edges after the call (falls back to the appended column on a ragged table)
+            got = np.asarray(ev['post'].get('dur', []), dtype=float).ravel()[len(ev['pre'].get('dur', [])):]
+            if len(ev['post'].get('dur', [])) != len(ev['post'].get('p1', [])) or len(ev['pre'].get('dur', [])) != len(ev['pre'].get('p1', [])):
+                got = np.asarray(ev['new'].get('dur', []), dtype=float).ravel()
             exp = ev['stated_col']
             n = len(ev['new']['p1'])
             if exp is None:
@@ -831,7 +848,11 @@ def oracle_stated(events):
                 what = (f'new edge {i} ({int(ev["new"]["p1"][i])}->{int(ev["new"]["p2"][i])}) carries dur={got[i]!r} but its stated duration is {exp[i]!r}'
                         if i is not None else f'{len(got)} durations for {len(exp)} stated ones')
                 src = f"the configured duration {ev['stated_val']!r}" if ev['stated'] == 'plain' else 'the draws of the configured duration distribution'
-                fails.append((dict(oracle='stated-duration', network=cls), f'{cls}.add_pairs (ti={ev.get("ti")}): {what} ({src}, in the network\'s time unit)'))
+                sig = dict(oracle='stated-duration', network=cls)
+                if ev.get('stated_timepar') and ev.get('dt') and len(exp) == len(got) and np.array_equal(got, exp / ev['dt']):
+                    sig['_defect'] = 'timepar-timesteps'   # the column holds the time parameter's value in TIMESTEPS (D / dt)
+                    src += f"; the column holds D/dt = {ev['stated_val'] / ev['dt']!r} timesteps, which end_pairs counts down by dt = {ev['dt']!r} per update"
+                fails.append((sig, f'{cls}.add_pairs (ti={ev.get("ti")}): {what} ({src}, in the network\'s time unit)'))
         if ev['op'] == 'matadd' and ('mat', cls) not in seen:
             pre, post = ev['pre'], ev['post']
             starts = ev['starts'] if ev['starts'] is not None else np.full(len(ev['durs']), float(ev['ti']))
@@ -895,10 +916,12 @@ def oracle_random_degree(ev, cls, cfg):
     return fails
 
 
-def oracle_lifetimes(events, snaps, cfg):
+def oracle_lifetimes(events, snaps, cfg, alt=False):
     """ Track every edge of a duration-carrying network from its append to its disappearance, in the recorded order of
         events: an edge of stated duration d (in the NETWORK's time unit) that has been through k end_pairs() calls of a
-        network whose own timestep is dt_net is present iff k == 0 or k * dt_net < d (both endpoints still active). """
+        network whose own timestep is dt_net is present iff k == 0 or k * dt_net < d (both endpoints still active).
+        (`alt`: the durations of a time-parameter configuration read as what the known defect makes of them, D / dt counted down
+        by dt — used only to decide whether a failure is exactly that defect.) """
     fails = []
     for netname in set(ev['net'] for ev in events):
         evs = [ev for ev in events if ev['net'] == netname]
@@ -912,6 +935,7 @@ def oracle_lifetimes(events, snaps, cfg):
                 durs = np.asarray(ev['new']['dur'], dtype=float)
                 if ev.get('stated_col') is not None and len(ev['stated_col']) == len(durs):
                     durs = np.asarray(ev['stated_col'], dtype=float)   # the STATED duration, not what the class wrote into the column
+                    if alt and ev.get('stated_timepar') and ev.get('dt'): durs = durs / ev['dt']
                 for a, b, d in zip(np.asarray(ev['new']['p1']).astype(int).tolist(), np.asarray(ev['new']['p2']).astype(int).tolist(),
                                    durs.tolist()):
                     tracked.append((nend, a, b, d))
@@ -930,7 +954,10 @@ def oracle_lifetimes(events, snaps, cfg):
                 for key in set(got) | set(exp):
                     if key in amb: continue
                     if got.get(key, 0) != exp.get(key, 0):
-                        fails.append((dict(oracle='edge-lifetime', network=cls),
+                        sig = dict(oracle='edge-lifetime', network=cls)
+                        if not alt and any(e.get('stated_timepar') for e in evs) and not oracle_lifetimes(evs, snaps, cfg, alt=True):
+                            sig['_defect'] = 'timepar-timesteps'   # fully explained by "D/dt timesteps counted down by dt"
+                        fails.append((sig,
                                       f"{cls} at sim step {ev['ti']} (after {nend} network updates, network dt={dt_net}, sim dt={cfg['dt']}): edge {key} is present {got.get(key, 0)} time(s) but {exp.get(key, 0)} edge(s) between these agents have a stated duration (configuration / draws of the duration parameter) reaching this update"))
                         return fails
     return fails
@@ -955,6 +982,8 @@ def tag_config(fails, cfg):
     for sig, what in fails:
         sig = dict(sig)
         agents = sig.pop('_agents', None)
+        if sig.pop('_defect', None) == 'timepar-timesteps':
+            sig = dict(network=sig['network'], dur='time-parameter', defect='timesteps-minus-dt', oracle=sig['oracle'])
         if plain and sig.get('network') == 'RandomNet' and agents == [0]:
             sig = dict(network='RandomNet', n_contacts='plain-number', defect='uid0-filler', oracle=sig['oracle'])
         out.append((sig, what))
@@ -997,7 +1026,7 @@ def direct_scenario(spec):
                 fails.append((dict(oracle='removed-still-active', network='People'), f'after remove_dead the dead agent(s) {still[:5]} are still in auids'))
     attach_stated(sim, cfg, rec.events)
     fails += oracle_stated(rec.events)
-    return dict(events=rec.events[n0:], fails=fails)
+    return dict(events=rec.events[n0:], fails=tag_config(fails, cfg))
 
 
 def maternal_direct(spec):
@@ -1020,7 +1049,7 @@ def maternal_direct(spec):
         net.add_pairs(ss.uids(pick[:spec['k']]), ss.uids(pick[spec['k']:]), dur=durs, start=starts)
         net.step()
     fails = oracle_stated(rec.events[n0:])
-    return dict(events=rec.events[n0:], fails=fails)
+    return dict(events=rec.events[n0:], fails=tag_config(fails, cfg))
 
 
 def gen_direct(rng):
